@@ -1,5 +1,6 @@
 import Cppcms.C02.SafetyFcgi
 import Cppcms.C02.SafetyHttp
+import Cppcms.C02.Pool
 /-!
 # C02 — property theorems
 
@@ -46,5 +47,13 @@ theorem parser_invariant (ps s : Gen.PState) (c : Nat) (hi : PInv ps) (h : Gen.s
 
 /-- non-vacuity of `LimitsOk`: the harness' configuration -/
 example : LimitsOk {} := ⟨by decide, by decide⟩
+
+/-- `string_pool` (the storage behind every request's variables): for every sequence of allocations of any
+sizes and `clear()`s — the requests of a kept-alive connection — no allocation is handed bytes outside its
+`malloc` block.  The page size, the conditions of `allocate_space` and which block `clear()` keeps are
+regenerated from `private/string_map.h`; the statement is false when `clear()` keeps another block than the
+head (`pool_overflows_when_last_kept`, finding D18). -/
+theorem pool_no_overflow (ops : List PoolOp) : (Pool.init.run Gen.poolClearKeepsHead ops).isSome = true :=
+  Cppcms.C02.pool_no_overflow ops
 
 end Cppcms.C02.Props
